@@ -16,7 +16,7 @@ verus! {
 global size_of usize == 8;
 
 //@enum file=yarel/src/chunk.rs name=OpCode discr=opcode_byte
-//@enum file=yarel/src/compiler.rs name=FunctionKind
+//@enum file=yarel/src/compiler.rs name=FunctionKind eq=1
 //@enum file=yarel/src/compiler.rs name=CompilerError
 //@enum file=yarel/src/scanner.rs name=TokenKind
 
@@ -165,15 +165,12 @@ impl Parser {
     // JumpFinally per enclosing try block (each removes the innermost handler and runs that try statement's finally).
     //@fn file=yarel/src/compiler.rs path=Parser::emit_return
     //@  rewrite R21
-    //@  subst "self.compiler().kind == FunctionKind::Initialiser" => "function_kind_eq(&self.compiler().kind, FunctionKind::Initialiser)"
     //@  requires old(self).comp.coupled()
     //@  assert @return_leaves_no_handler_installed before_stmt "self.emit_byte(opcode_u8(OpCode::Return))" self.comp.hdepth == 0
     //@  ensures final(self).comp.try_depth == old(self).comp.try_depth
     //@end
     //@fn file=yarel/src/compiler.rs path=Parser::return_statement
     //@  rewrite R21
-    //@  subst "self.compiler().kind == FunctionKind::Script" => "function_kind_eq(&self.compiler().kind, FunctionKind::Script)"
-    //@  subst "self.compiler().kind == FunctionKind::Initialiser" => "function_kind_eq(&self.compiler().kind, FunctionKind::Initialiser)"
     //@  requires old(self).comp.coupled()
     //@  assert @return_leaves_no_handler_installed before_stmt "self.emit_byte(opcode_u8(OpCode::Return))" self.comp.hdepth == 0
     //@end
